@@ -51,7 +51,7 @@ PROPS = {
                 "admission coin varied; non-trivial = >= 3 steps; distinct = sha1 of the recorded case",
         "trusted_base": [KERNEL, EXTRACT, HARNESS, "hook H7 (controllable Fastrand, build tag verif)",
                          "modelled, not verified: float32 hill-climber arithmetic (the raw int(amount) is an input of the model, recomputed by the harness; "
-                         "the float32 initial window / protected capacities are read from the constructor); intrusive lists as Coq lists; uint as Z mod 2^64"],
+                         "the float32 initial window / protected capacities are read from the constructor); intrusive lists as Coq lists (justified: pointer-level model Model/DList.v proved to refine them, and compared with the real List); entry flags as booleans (justified: Model/Flags.v, bit table scraped from policy_flag.go); uint as Z mod 2^64"],
         "assumptions": ["costs are in 1..capacity (C06 covers rejection above capacity)"],
         "explanation": "structural invariant proved over all op sequences of the policy model; model replayed step by step against the real TinyLfu",
     },
@@ -65,7 +65,7 @@ STORE_TB = [KERNEL, EXTRACT, HARNESS, "hooks H1 (virtual clock) and H7 (controll
             "modelled, not verified: one logical shard map (shard choice = hash & mask is not observable sequentially); the event channel as a list "
             "whose delivery order the harness chooses; atomic maintenance operations (an API section interleaving inside removeEntry is "
             "covered by the stale-visit operation only); entry pool off; float32 climb amount and doorkeeper verdict are inputs",
-            "Go runtime: sync.Mutex/RBMutex as locks, channels, goroutine scheduling"]
+            "Go runtime: sync.Mutex as a lock, channels, goroutine scheduling; the shard lock RBMutex is modelled per atomic operation and proved exclusive (C19), the striped hit/miss counters likewise (C16)"]
 
 def store_prop(files, codes, tags, expl, assumptions=None):
     return {"props_files": files, "go_tests": ["TestVerifStore"], "level": "proof", "rule": STORE_RULE,
